@@ -179,6 +179,13 @@ func (vc *VC) stdIntrinsic(fr *Frame, fn *ssa.Function, name string, args []SV, 
 	case "(encoding/binary.bigEndian).PutUint64":
 		vc.beUint64(fr, args[1], true, args[2])
 		return nil, true
+	case "os.CreateTemp", "os.OpenFile":
+		note("the operating system does not fail: " + name + " returns a file and a nil error")
+		return []SV{scalar(vc.newRef("file")), scalar("0")}, true
+	case "(*os.File).Name":
+		return []SV{vc.freshValue(fn.Signature.Results().At(0).Type(), "fname")}, true
+	case "os.Remove":
+		return []SV{scalar("0")}, true
 	case "os.Getpagesize":
 		return []SV{scalar(vc.fresh(bvSort(64), "pagesize"))}, true
 	}
@@ -224,7 +231,7 @@ func (vc *VC) beUint64(fr *Frame, b SV, put bool, v SV) SV {
 	sort := "(Array Int (Array (_ BitVec 64) (_ BitVec 8)))"
 	h := vc.heapGet(name, sort)
 	arr := vc.def("(Array (_ BitVec 64) (_ BitVec 8))", sel(h, b.L[0]))
-	at := func(k int) string { return fmt.Sprintf("(bvadd %s (_ bv%d 64))", b.L[1], k) }
+	at := func(k int) string { return vc.ix(b.L[1], fmt.Sprintf("(_ bv%d 64)", k)) }
 	if !put {
 		t := "(concat"
 		for k := 0; k < 8; k++ {
